@@ -38,6 +38,7 @@ from unified_planning.exceptions import (
     UPProblemDefinitionError,
     UPException,
 )
+from unified_planning.model.operators import OperatorKind
 from unified_planning.model.htn import HierarchicalProblem
 from unified_planning.model.contingent import ContingentProblem, SensingAction
 from unified_planning.model.types import _UserType
@@ -364,6 +365,37 @@ class PDDLWriter:
         ):
             self.pddl_keywords |= TEMPORAL_PDDL_KEYWORDS
 
+    def _written_condition_operators(self):
+        """
+        Returns the set of operators used by the expressions that this writer writes as conditions (goals,
+        preconditions, effect conditions and the values of the non-constant boolean assignments, that are
+        rewritten as conditional effects) and a flag that tells if there are such boolean assignments.
+        """
+        extractor = walkers.OperatorsExtractor()
+        expressions = list(self.problem.goals)
+        rewritten_assignments = False
+        for a in self.problem.actions:
+            if isinstance(a, InstantaneousAction):
+                expressions.extend(a.preconditions)
+                effects = a.effects
+            elif isinstance(a, DurativeAction):
+                effects = []
+                for cl in a.conditions.values():
+                    expressions.extend(cl)
+                for el in a.effects.values():
+                    effects.extend(el)
+            else:
+                continue
+            for e in effects:
+                expressions.append(e.condition)
+                if e.value.type.is_bool_type() and not e.value.is_constant():
+                    rewritten_assignments = True
+                    expressions.append(e.value)
+        ops: Set[OperatorKind] = set()
+        for exp in expressions:
+            ops |= extractor.get(exp)
+        return ops, rewritten_assignments
+
     def _write_parameters(self, out, a):
         for ap in a.parameters:
             if ap.type.is_user_type():
@@ -389,14 +421,23 @@ class PDDLWriter:
         out.write(f"(domain {name}-domain)\n")
 
         if self.needs_requirements:
+            # operators that are written in conditions but that the problem kind does not report as
+            # conditions: an Iff is written with imply, and the value of a non-constant boolean assignment
+            # becomes the condition of conditional effects
+            written_ops, rewritten_assignments = self._written_condition_operators()
             out.write(" (:requirements :strips")
             if self.problem_kind.has_flat_typing():
                 out.write(" :typing")
-            if self.problem_kind.has_negative_conditions():
+            if self.problem_kind.has_negative_conditions() or rewritten_assignments:
                 out.write(" :negative-preconditions")
-            if self.problem_kind.has_disjunctive_conditions():
+            if (
+                self.problem_kind.has_disjunctive_conditions()
+                or OperatorKind.IFF in written_ops
+                or OperatorKind.OR in written_ops
+                or OperatorKind.IMPLIES in written_ops
+            ):
                 out.write(" :disjunctive-preconditions")
-            if self.problem_kind.has_equalities():
+            if self.problem_kind.has_equalities() or OperatorKind.EQUALS in written_ops:
                 out.write(" :equality")
             if (
                 self.problem_kind.has_int_fluents()
@@ -406,14 +447,20 @@ class PDDLWriter:
                 out.write(" :numeric-fluents")
             if self.problem_kind.has_conditional_effects():
                 out.write(" :conditional-effects")
-            if self.problem_kind.has_existential_conditions():
+            if (
+                self.problem_kind.has_existential_conditions()
+                or OperatorKind.EXISTS in written_ops
+            ):
                 out.write(" :existential-preconditions")
             if (
                 self.problem_kind.has_trajectory_constraints()
                 or self.problem_kind.has_state_invariants()
             ):
                 out.write(" :constraints")
-            if self.problem_kind.has_universal_conditions():
+            if (
+                self.problem_kind.has_universal_conditions()
+                or OperatorKind.FORALL in written_ops
+            ):
                 out.write(" :universal-preconditions")
             if (
                 self.problem_kind.has_continuous_time()
